@@ -216,35 +216,59 @@ def so3_gate(chk, prog, ref, var_hint="in_SO3"):
     f = prog.func(ref)
     chk.touch(f)
 
-    def kinds(expr):
+    def direct(expr):
+        """tags the expression text carries itself: a determinant, a Gram product X @ X.T, an identity matrix"""
         t = ast.unparse(expr)
         k = set()
         if "det(" in t:
             k.add("det")
-        if "@" in t and ".T" in t and ("identity" in t or "eye" in t):
-            k.add("orth")
+        if "@" in t and ".T" in t:
+            k.add("gram")
+        if "identity(" in t or "eye(" in t:
+            k.add("ident")
         return k
+
+    def close(k):
+        return k | ({"orth"} if {"gram", "ident"} <= k else set())
+
+    def kinds(expr, env=None):
+        """tags of an expression: a disjunction keeps only what both sides test, everything else (&, and, calls, comparisons) accumulates;
+        locals contribute what was assigned to them"""
+        env = env or {}
+        if (isinstance(expr, ast.BinOp) and isinstance(expr.op, ast.BitOr)) or (isinstance(expr, ast.BoolOp) and isinstance(expr.op, ast.Or)):
+            sides = [expr.left, expr.right] if isinstance(expr, ast.BinOp) else expr.values
+            ks = [kinds(s_, env) for s_ in sides]
+            return set.intersection(*ks)
+        k = direct(expr)
+        for n in ast.walk(expr):
+            if isinstance(n, ast.Name) and n.id in env:
+                k |= env[n.id]
+        return close(k)
     results = []
 
     def walk(stmts, env):
         for s in stmts:
             if isinstance(s, ast.Assign) and len(s.targets) == 1 and isinstance(s.targets[0], ast.Name):
-                env[s.targets[0].id] = kinds(s.value) | set().union(*[env.get(n.id, set()) for n in ast.walk(s.value) if isinstance(n, ast.Name) and n.id in env])
+                env[s.targets[0].id] = kinds(s.value, env)
             elif isinstance(s, ast.AugAssign) and isinstance(s.target, ast.Name) and isinstance(s.op, ast.BitAnd):
-                env[s.target.id] = env.get(s.target.id, set()) | kinds(s.value)
+                env[s.target.id] = close(env.get(s.target.id, set()) | kinds(s.value, env))
             elif isinstance(s, ast.AugAssign) and isinstance(s.target, ast.Name) and isinstance(s.op, ast.BitOr):
-                env[s.target.id] = env.get(s.target.id, set()) & kinds(s.value)     # a disjunction weakens the gate
+                env[s.target.id] = env.get(s.target.id, set()) & kinds(s.value, env)     # a disjunction weakens the gate
+            elif isinstance(s, ast.Expr) and isinstance(s.value, ast.Call) and isinstance(s.value.func, ast.Attribute) and s.value.func.attr in ("append", "extend") \
+                    and isinstance(s.value.func.value, ast.Name):
+                nm = s.value.func.value.id
+                env[nm] = env.get(nm, set()) | set().union(*[kinds(a_, env) for a_ in s.value.args]) if s.value.args else env.get(nm, set())
+            elif isinstance(s, (ast.For, ast.While)):
+                walk(s.body, env)
+                walk(s.orelse, env)
             elif isinstance(s, ast.If):
                 t = s.test
                 if isinstance(t, ast.UnaryOp) and isinstance(t.op, ast.Not) and isinstance(t.operand, ast.Name) and t.operand.id in env \
                         and any(isinstance(b, ast.Raise) for b in s.body):
                     results.append((s, set(env[t.operand.id])))
                     continue
-                if isinstance(t, ast.UnaryOp) and isinstance(t.op, ast.Not) and any(isinstance(b, ast.Raise) for b in s.body) and kinds(t.operand):
-                    k = kinds(t.operand)
-                    if isinstance(t.operand, ast.BoolOp) and isinstance(t.operand.op, ast.Or):
-                        k = set()
-                    results.append((s, k))
+                if isinstance(t, ast.UnaryOp) and isinstance(t.op, ast.Not) and any(isinstance(b, ast.Raise) for b in s.body) and kinds(t.operand, env):
+                    results.append((s, kinds(t.operand, env)))
                     continue
                 e1, e2 = dict(env), dict(env)
                 walk(s.body, e1)
@@ -264,6 +288,43 @@ def so3_gate(chk, prog, ref, var_hint="in_SO3"):
             chk.record("SO3-GATE", site, "gate conjoins determinant and orthogonality tests on every path", verdict="VIOLATION")
             chk.finding("SO3-GATE", f.module.rel, f.qname, "gate lacks %s test: %s" % ("/".join(sorted({"det", "orth"} - k)), stmt_text(s)),
                         "a matrix failing the missing test (reflection with det -1, or a scaled/sheared matrix) is accepted", line=s.lineno)
+
+
+def _one_return(chk, prog, f, ref, r):
+    site = "%s::%s" % (ref, r["text"])
+    v = r["value"]
+    why = None
+    if isinstance(v, ast.Call) and isinstance(v.func, ast.Attribute) and v.func.attr == "to_DCM":
+        why = "rotation-matrix representation of a constructor-normalised quaternion"
+    if ref.endswith("Quaternion.from_rpy"):
+        why = "AVN"
+    if why == "AVN":
+        def avn():
+            it = Interp(prog, oracle=lambda c, i: False if c.op in ("<", ">") else None)   # angles inside [-2pi, 2pi]
+            ang = sym_vec("ang", 3)
+            for a in ang:
+                P.set_angle_unit(a, P.Fraction(1, 2))
+            q = it.run(f, [ClassRef(prog.cls(QUAT + "::Quaternion")), ang])
+            tot = P.ZERO
+            for x in to_obj(q):
+                tot = tot + x * x
+            return eq(tot, P.ONE, "sum q^2")
+        chk.ob("UNIT-RET.avn", site, "sum q^2 == 1 for the Euler->quaternion block", avn, module=f.module.rel, function=f.qname, construct="non-unit return: " + r["text"], line=r["line"])
+        return
+    if why:
+        chk.record("UNIT-RET.exempt", site, why)
+        return
+    if r["unit"]:
+        chk.record("UNIT-RET", site, "returned value carries UNIT")
+    else:
+        chk.record("UNIT-RET", site, "returned value carries UNIT", verdict="VIOLATION")
+        chk.finding("UNIT-RET", f.module.rel, f.qname, "non-unit return: " + r["text"], "no normalisation reaches `%s`" % r["text"], line=r["line"])
+    if r["complex"]:
+        chk.record("REAL-RET", site, "returned value is real", verdict="VIOLATION")
+        chk.finding("REAL-RET", f.module.rel, f.qname, "complex return: " + r["text"],
+                    "value derived from np.linalg.eig reaches the return without .real (complex dtype with NumPy 2)", line=r["line"])
+    else:
+        chk.record("REAL-RET", site, "returned value is real")
 
 
 def rewrap_and_returns(chk, prog):
@@ -290,44 +351,14 @@ def rewrap_and_returns(chk, prog):
         chk.touch(f)
         fa = Facts(f, prog, unit_summaries=summ).analyse()
         n = 0
-        for r in fa.ret_info:
-            if r["none"]:
+        for r0 in fa.ret_info:
+            if r0["none"]:
                 continue
             n += 1
-            site = "%s::%s" % (ref, r["text"])
-            v = r["stmt"].value
-            why = None
-            if isinstance(v, ast.Call) and isinstance(v.func, ast.Attribute) and v.func.attr == "to_DCM":
-                why = "rotation-matrix representation of a constructor-normalised quaternion"
-            if ref.endswith("Quaternion.from_rpy"):
-                why = "AVN"
-            if why == "AVN":
-                def avn():
-                    it = Interp(prog, oracle=lambda c, i: False if c.op in ("<", ">") else None)   # angles inside [-2pi, 2pi]
-                    ang = sym_vec("ang", 3)
-                    for a in ang:
-                        P.set_angle_unit(a, P.Fraction(1, 2))
-                    q = it.run(f, [ClassRef(prog.cls(QUAT + "::Quaternion")), ang])
-                    tot = P.ZERO
-                    for x in to_obj(q):
-                        tot = tot + x * x
-                    return eq(tot, P.ONE, "sum q^2")
-                chk.ob("UNIT-RET.avn", site, "sum q^2 == 1 for the Euler->quaternion block", avn, module=f.module.rel, function=f.qname, construct="non-unit return: " + r["text"], line=r["line"])
-                continue
-            if why:
-                chk.record("UNIT-RET.exempt", site, why)
-                continue
-            if r["unit"]:
-                chk.record("UNIT-RET", site, "returned value carries UNIT")
-            else:
-                chk.record("UNIT-RET", site, "returned value carries UNIT", verdict="VIOLATION")
-                chk.finding("UNIT-RET", f.module.rel, f.qname, "non-unit return: " + r["text"], "no normalisation reaches `%s`" % r["text"], line=r["line"])
-            if r["complex"]:
-                chk.record("REAL-RET", site, "returned value is real", verdict="VIOLATION")
-                chk.finding("REAL-RET", f.module.rel, f.qname, "complex return: " + r["text"],
-                            "value derived from np.linalg.eig reaches the return without .real (complex dtype with NumPy 2)", line=r["line"])
-            else:
-                chk.record("REAL-RET", site, "returned value is real")
+            arms = [dict(r0, value=r0["stmt"].value)] if not r0.get("arms") else \
+                [dict(r0, value=a["expr"], unit=a["unit"], complex=a["complex"], text="%s [arm %s]" % (r0["text"], a["text"])) for a in r0["arms"]]
+            for r in arms:
+                _one_return(chk, prog, f, ref, r)
         if n == 0:
             chk.error("UNIT-RET: %s has no value-returning path" % ref)
 
